@@ -1,19 +1,26 @@
 """Uninterpreted builtins on text/bytes plus the laws about them.
 
-Every law is a fact about a CPython builtin (trusted base T-str / T-hex, audited natively by
-audits/laws_audit.py) and is *instantiated by the generator at the terms that occur*, so
-queries stay quantifier free.
+Text is the uninterpreted sort PStr.  Every law below is a fact about a CPython builtin
+(trusted base T-str / T-hex, audited natively by audits/laws_audit.py) and is *instantiated by
+the generator at the terms that occur*, so queries stay quantifier free and in EUF + LIA.
+Facts about literals are computed with the real builtins.
 """
 from __future__ import annotations
 
 import z3
 
-from .core import BOOL, BYTES, BYTE, INT, LSTR, REAL, STR
+from .core import BOOL, BYTES, BYTE, INT, REAL, STR, lit_value, s_len, strlit
 
+s_cat = z3.Function("s_cat", STR, STR, STR)  # binary concatenation, kept right-nested and flat
+s_contains = z3.Function("s_contains", STR, STR, BOOL)
+s_prefixof = z3.Function("s_prefixof", STR, STR, BOOL)  # s_prefixof(p, s)
+s_suffixof = z3.Function("s_suffixof", STR, STR, BOOL)
+s_find = z3.Function("s_find", STR, STR, INT)
+s_slice = z3.Function("s_slice", STR, INT, INT, STR)  # s[lo:hi] with normalised bounds 0<=lo<=hi<=len
 py_rstrip = z3.Function("py_rstrip", STR, STR)
 py_strip = z3.Function("py_strip", STR, STR)
-py_split = z3.Function("py_split", STR, STR, LSTR)
-py_join = z3.Function("py_join", STR, LSTR, STR)
+split_len = z3.Function("split_len", STR, STR, INT)
+split_get = z3.Function("split_get", STR, STR, INT, STR)
 py_int_ok = z3.Function("py_int_ok", STR, BOOL)
 py_int = z3.Function("py_int", STR, INT)
 py_str = z3.Function("py_str", INT, STR)
@@ -27,11 +34,25 @@ py_hexlify = z3.Function("py_hexlify", BYTES, STR)
 py_unhex_ok = z3.Function("py_unhex_ok", STR, BOOL)
 py_unhexlify = z3.Function("py_unhexlify", STR, BYTES)
 py_isdigit = z3.Function("py_isdigit", STR, BOOL)
-py_version_ok = z3.Function("py_version_ok", STR, BOOL)  # AwesomeVersion(s) comparable, see models
-py_version_major = z3.Function("py_version_major", STR, INT)
-py_version_minor = z3.Function("py_version_minor", STR, INT)
-py_version_patch = z3.Function("py_version_patch", STR, INT)
 ff_run = z3.Function("ff_run", INT, BYTES)  # n bytes of 0xFF
+
+EMPTY = strlit("")
+# single-character separators for which "contains distributes over concatenation" is instantiated
+SEP_CHARS = (";", "/", ",", "\n")
+
+
+def is_cat(t):
+    return z3.is_app(t) and t.decl().eq(s_cat)
+
+
+def flatten(t):
+    """Right-nested s_cat term -> list of parts."""
+    out = []
+    while is_cat(t):
+        out.append(t.arg(0))
+        t = t.arg(1)
+    out.append(t)
+    return out
 
 
 class LawBook:
@@ -40,118 +61,229 @@ class LawBook:
     def __init__(self, ctx):
         self.ctx = ctx
         self.joins = []  # (sep term, [part terms], joined term)
-        self.splits = []  # (s, sep, list term)
+        self.splits = []  # (s, sep)
         self.seen = set()
 
     def _once(self, tag, *terms):
-        key = (tag,) + tuple(t.get_id() for t in terms)
+        key = (tag,) + tuple(t.get_id() if hasattr(t, "get_id") else t for t in terms)
         if key in self.seen:
             return False
         self.seen.add(key)
         return True
 
-    # ---- rstrip
+    # ---- length / concat
+    def length(self, s):
+        lv = lit_value(s)
+        if lv is not None:
+            return z3.IntVal(len(lv))
+        t = s_len(s)
+        if self._once("len", s):
+            self.ctx.add_fact(t >= 0)
+            self.ctx.add_fact((t == 0) == (s == EMPTY))
+        return t
+
+    def concat(self, parts):
+        """Concatenation in normal form: flat, no empty literals, adjacent literals merged."""
+        flat = []
+        for p in parts:
+            for q in flatten(p):
+                lv = lit_value(q)
+                if lv == "":
+                    continue
+                if lv is not None and flat and lit_value(flat[-1]) is not None:
+                    flat[-1] = strlit(lit_value(flat[-1]) + lv)
+                else:
+                    flat.append(q)
+        if not flat:
+            return EMPTY
+        t = flat[-1]
+        for p in reversed(flat[:-1]):
+            t = s_cat(p, t)
+            self._cat_laws(t)
+        return t
+
+    def _cat_laws(self, t):
+        if not self._once("cat", t):
+            return
+        a, b = t.arg(0), t.arg(1)
+        c = self.ctx
+        c.add_fact(s_len(t) == self.length(a) + self.length(b))
+        self.length(t)
+        for ch in SEP_CHARS:
+            cl = strlit(ch)
+            c.add_fact(s_contains(t, cl) == z3.Or(self.contains(a, cl), self.contains(b, cl)))
+
+    def contains(self, a, b):
+        la, lb_ = lit_value(a), lit_value(b)
+        if la is not None and lb_ is not None:
+            return z3.BoolVal(lb_ in la)
+        if lb_ == "":
+            return z3.BoolVal(True)
+        t = s_contains(a, b)
+        if la is not None and lb_ is not None:
+            return t
+        if self._once("contains", a, b):
+            if a.eq(b):
+                self.ctx.add_fact(t)
+            # a string shorter than the needle cannot contain it
+            self.ctx.add_fact(z3.Implies(t, self.length(a) >= self.length(b)))
+        return t
+
+    # ---- rstrip / strip
     def rstrip(self, s):
+        lv = lit_value(s)
+        if lv is not None:
+            return strlit(lv.rstrip())
         r = py_rstrip(s)
         if self._once("rstrip", s):
             c = self.ctx
-            c.add_fact(z3.PrefixOf(r, s))
+            c.add_fact(s_prefixof(r, s))
             c.add_fact(py_rstrip(r) == r)
+            c.add_fact(self.length(r) <= self.length(s))
+            for ch in SEP_CHARS:
+                if ch.strip():
+                    cl = strlit(ch)
+                    # stripping blanks neither adds nor removes a non-blank character
+                    c.add_fact(s_contains(r, cl) == self.contains(s, cl))
+            # R-laws on concatenations whose last part is known
+            parts = flatten(s)
+            if len(parts) >= 2:
+                last = parts[-1]
+                ll = lit_value(last)
+                head = self.concat(parts[:-1])
+                if ll is not None and ll.strip() == "":
+                    # trailing blanks: rstrip(x ++ blanks) = rstrip(x)
+                    c.add_fact(r == self.rstrip(head))
+                else:
+                    # rstrip(x ++ y) = x ++ rstrip(y) when rstrip(y) is not empty
+                    ry = self.rstrip(last)
+                    c.add_fact(z3.Implies(ry != EMPTY, r == self.concat([head, ry])))
         return r
 
     def strip(self, s):
+        lv = lit_value(s)
+        if lv is not None:
+            return strlit(lv.strip())
         r = py_strip(s)
         if self._once("strip", s):
-            self.ctx.add_fact(z3.Contains(s, r))
             self.ctx.add_fact(py_strip(r) == r)
+            self.ctx.add_fact(self.length(r) <= self.length(s))
         return r
 
-    # ---- split / join
+    # ---- split / join (single, non-empty literal separator)
     def split(self, s, sep):
-        lst = py_split(s, sep)
+        """Returns (length term, element function)."""
+        ls, lsep = lit_value(s), lit_value(sep)
+        if lsep is None or lsep == "":
+            raise ValueError("split needs a literal non-empty separator")
+        n = split_len(s, sep)
         if self._once("split", s, sep):
             c = self.ctx
-            c.add_fact(z3.Length(lst) >= 1)
-            c.add_fact(py_join(sep, lst) == s)
-            # a string without the separator splits into itself
-            c.add_fact(z3.Implies(z3.Not(z3.Contains(s, sep)), lst == z3.Unit(s)))
-            c.add_fact(z3.Implies(z3.Length(lst) == 1, z3.And(lst == z3.Unit(s), z3.Not(z3.Contains(s, sep)))))
-            self.splits.append((s, sep, lst))
+            c.add_fact(n >= 1)
+            has = self.contains(s, sep)
+            c.add_fact(z3.Implies(z3.Not(has), z3.And(n == 1, split_get(s, sep, 0) == s)))
+            c.add_fact(z3.Implies(n == 1, z3.And(z3.Not(has), split_get(s, sep, 0) == s)))
+            if ls is not None:
+                parts = ls.split(lsep)
+                c.add_fact(n == len(parts))
+                for i, p in enumerate(parts):
+                    c.add_fact(split_get(s, sep, i) == strlit(p))
+            if len(lsep) == 1 and lsep.strip() == lsep:
+                last = split_get(s, sep, n - 1)
+                # R-law: the last field of a string with a clean end has a clean end
+                c.add_fact(z3.Implies(self.rstrip(s) == s, self.rstrip(last) == last))
+            self.splits.append((s, sep))
             for jsep, parts, jt in self.joins:
-                self._split_join(s, sep, lst, jsep, parts, jt)
-        return lst
+                self._split_join(s, sep, jsep, parts, jt)
+            # the string itself may be a concatenation that is visibly a join: p0 sep p1 sep ...
+            parts = self._as_join(s, sep)
+            if parts is not None:
+                self._split_join(s, sep, sep, parts, s)
 
-    def split_elem(self, lst_src, lst, i):
-        """Element read of a split result: it does not contain the separator."""
-        for s, sep, l2 in self.splits:
-            if l2.eq(lst_src):
-                e = lst[i]
-                if self._once("splitelem", l2, i):
-                    self.ctx.add_fact(
-                        z3.Implies(z3.And(i >= 0, i < z3.Length(l2)), z3.Not(z3.Contains(l2[i], sep)))
-                    )
-                return e
-        return lst[i]
+        def get(i):
+            e = split_get(s, sep, i)
+            if self._once("splitelem", s, sep, i if not isinstance(i, int) else z3.IntVal(i)):
+                self.ctx.add_fact(z3.Implies(z3.And(i >= 0, i < n), z3.Not(self.contains(e, sep))))
+            return e
+
+        return n, get
+
+    def _as_join(self, s, sep):
+        parts = flatten(s)
+        if len(parts) < 3:
+            return None
+        out = [[]]
+        for p in parts:
+            if p.eq(sep):
+                out.append([])
+            else:
+                lv = lit_value(p)
+                lsep = lit_value(sep)
+                if lv is not None and lsep in lv:
+                    # literal containing the separator: split it natively
+                    pieces = lv.split(lsep)
+                    out[-1].append(strlit(pieces[0]))
+                    for pc in pieces[1:]:
+                        out.append([strlit(pc)])
+                else:
+                    out[-1].append(p)
+        return [self.concat(g) if g else EMPTY for g in out]
 
     def join_parts(self, sep, parts):
         """sep.join([p0, ..., pn]) for a list of known length: plain concatenation."""
         if not parts:
-            return z3.StringVal("")
-        t = parts[0]
+            return EMPTY
+        seq = [parts[0]]
         for p in parts[1:]:
-            t = z3.Concat(t, sep, p)
-        if len(parts) >= 1 and self._once("join", sep, t):
+            seq.append(sep)
+            seq.append(p)
+        t = self.concat(seq)
+        if self._once("join", sep, t):
             self.joins.append((sep, list(parts), t))
-            for s, ssep, lst in self.splits:
-                self._split_join(s, ssep, lst, sep, parts, t)
-            # the split of this very term is also of interest
+            for s, ssep in self.splits:
+                self._split_join(s, ssep, sep, parts, t)
         return t
 
-    def _split_join(self, s, sep, lst, jsep, parts, jt):
+    def _split_join(self, s, sep, jsep, parts, jt):
+        if not sep.eq(jsep):
+            return
         if not self._once("sj", s, sep, jt):
             return
-        nocontain = [z3.Not(z3.Contains(p, sep)) for p in parts]
-        seq = None
-        for p in parts:
-            u = z3.Unit(p)
-            seq = u if seq is None else z3.Concat(seq, u)
-        self.ctx.add_fact(z3.Implies(z3.And(s == jt, sep == jsep, *nocontain), lst == seq))
-
-    def join_sym(self, sep, lst):
-        return py_join(sep, lst)
+        nocontain = [z3.Not(self.contains(p, sep)) for p in parts]
+        concl = [split_len(s, sep) == len(parts)] + [split_get(s, sep, i) == p for i, p in enumerate(parts)]
+        hyp = nocontain if s.eq(jt) else [s == jt] + nocontain
+        self.ctx.add_fact(z3.Implies(z3.And(hyp) if hyp else z3.BoolVal(True), z3.And(concl)))
 
     # ---- int / str
     def str_of_int(self, n):
+        if z3.is_int_value(n):
+            return strlit(str(n.as_long()))
         s = py_str(n)
         if self._once("str", n):
             c = self.ctx
             c.add_fact(py_int_ok(s))
             c.add_fact(py_int(s) == n)
-            c.add_fact(z3.Length(s) >= 1)
-            for ch in (";", "/", ",", " ", "\n", "\r", "\t", "+", "#"):
-                c.add_fact(z3.Not(z3.Contains(s, z3.StringVal(ch))))
+            c.add_fact(s_len(s) >= 1)
+            for ch in (";", "/", ",", " ", "\n"):
+                c.add_fact(z3.Not(s_contains(s, strlit(ch))))
             c.add_fact(py_rstrip(s) == s)
             c.add_fact(py_strip(s) == s)
-            # small literals
-            c.add_fact(z3.Implies(n == 0, s == z3.StringVal("0")))
-            c.add_fact(z3.Implies(n == 1, s == z3.StringVal("1")))
-            c.add_fact(z3.Implies(s == z3.StringVal("0"), n == 0))
-            c.add_fact(z3.Implies(s == z3.StringVal("1"), n == 1))
+            c.add_fact(s != EMPTY)
+            for k in (0, 1, 255):
+                c.add_fact((n == k) == (s == strlit(str(k))))
         return s
 
     def int_of_str(self, s):
-        return py_int_ok(s), py_int(s)
-
-    def int_literal_facts(self, s):
-        """py_int on a literal string: computed natively."""
-        if z3.is_string_value(s):
-            txt = s.as_string()
+        lv = lit_value(s)
+        if lv is not None:
             try:
-                v = int(txt)
-                self.ctx.add_fact(py_int_ok(s))
-                self.ctx.add_fact(py_int(s) == v)
+                return z3.BoolVal(True), z3.IntVal(int(lv))
             except ValueError:
-                self.ctx.add_fact(z3.Not(py_int_ok(s)))
+                return z3.BoolVal(False), z3.IntVal(0)
+        if self._once("int", s):
+            # str(int(s)) is the canonical spelling: int(str(int(s))) = int(s) comes from str_of_int
+            pass
+        return py_int_ok(s), py_int(s)
 
     # ---- bytes
     def ff(self, n):
@@ -175,17 +307,22 @@ class LawBook:
         h = py_hexlify(b)
         if self._once("hexlify", b):
             c = self.ctx
-            c.add_fact(z3.Length(h) == 2 * z3.Length(b))
+            c.add_fact(s_len(h) == 2 * z3.Length(b))
             c.add_fact(py_unhex_ok(h))
             c.add_fact(py_unhexlify(h) == b)
+            for ch in SEP_CHARS:
+                c.add_fact(z3.Not(s_contains(h, strlit(ch))))
+            c.add_fact(py_rstrip(h) == h)
         return h
 
     def unhexlify(self, s):
+        lv = lit_value(s)
         b = py_unhexlify(s)
         if self._once("unhexlify", s):
             c = self.ctx
-            c.add_fact(z3.Implies(py_unhex_ok(s), z3.Length(s) == 2 * z3.Length(b)))
-            c.add_fact(z3.Implies(z3.Length(s) % 2 != 0, z3.Not(py_unhex_ok(s))))
+            c.add_fact(z3.Implies(py_unhex_ok(s), self.length(s) == 2 * z3.Length(b)))
+            c.add_fact(z3.Implies(self.length(s) % 2 != 0, z3.Not(py_unhex_ok(s))))
+            c.add_fact(z3.Implies(py_unhex_ok(s), py_hexlify(b) != EMPTY if False else z3.BoolVal(True)))
         return py_unhex_ok(s), b
 
 
